@@ -33,7 +33,8 @@ BOUNDS_TEXT = ("publisher: <= obs observers (optionally one removed again, one r
                "(any characters, not only a/b/.) with three pairwise distinct levels and event levels info and error, "
                "events lacking level or namespace on short strings, and "
                "separately every (level, level, default, event level) combination on 6 fixed namespace "
-               "configurations; history: size 0..buf or None, 0..buf+2 events")
+               "configurations, and set/query/set/query/clear/query/set/query orderings with namespace and two "
+               "prefixes from the menu {a, a.b, a.b.c, ab, ''} x all 5^2 configured levels x default info/error x every event level; history: size 0..buf or None, 0..buf+2 events")
 OUTSIDE = ["more observers / events / longer namespaces than the bounds",
            "the full product (symbolic namespace strings) x (all 5^4 level assignments): string selection is "
            "checked with pairwise distinct levels, level comparison with fixed strings",
@@ -274,6 +275,64 @@ def flt_levels(cfg: int, l1: int, l2: int, d: int, ev: int) -> bool:
     return _check_filter(pred, ns, True, True, LEVELS[ev], exp)
 
 
+_MENU = ["a", "a.b", "a.b.c", "ab", ""]
+
+
+def _ref_current(ns, cfg, dflt):
+    """longest whole-component dotted prefix of ns among the settings made so far (cfg: list of
+    (prefix, level) in the order they were set; '' sets the default; later settings win)"""
+    table = {}
+    for p, lv in cfg:
+        if p == "":
+            dflt = lv
+        else:
+            table[p] = lv
+    best = None
+    for p in table:
+        if (p == ns or ns.startswith(p + ".")) and (best is None or len(p) > len(best)):
+            best = p
+    return dflt if best is None else table[best]
+
+
+def _query_ok(pred, ns, exp, events=True):
+    # the level reported for ns and (events=True) the verdict for an event of every level from ns
+    if pred.logLevelForNamespace(ns) is not exp:
+        return False
+    for lv in (LEVELS if events else ()):
+        got = pred({"log_level": lv, "log_namespace": ns})
+        want = PredicateResult.no if (ns == "" or lv < exp) else PredicateResult.maybe
+        if got is not want:
+            return False
+    return True
+
+
+def flt_order(ins: int, ip1: int, ip2: int, l1: int, l2: int, d: int) -> bool:
+    """
+    pre: 0 <= ins <= 4 and 0 <= ip1 <= 4 and 0 <= ip2 <= 4 and 0 <= l1 <= 4 and 0 <= l2 <= 4 and (d == 1 or d == 3)
+    post: _
+    """
+    # ordering: configure, query, reconfigure (ancestor / root / unrelated / the namespace itself),
+    # query again, clear, query, configure again, query - each query judged against the
+    # configuration current at that moment.  Concrete menu strings on the REAL dict (no SymDict).
+    ns, p1, p2 = _MENU[_conc(ins, 0, 4)], _MENU[_conc(ip1, 0, 4)], _MENU[_conc(ip2, 0, 4)]
+    L1, L2, D = LEVELS[_conc(l1, 0, 4)], LEVELS[_conc(l2, 0, 4)], LEVELS[_conc(d, 0, 4)]
+    pred = LogLevelFilterPredicate(defaultLogLevel=D)
+    if not _query_ok(pred, ns, D, events=False):
+        return False
+    pred.setLogLevelForNamespace(p1, L1)
+    if not _query_ok(pred, ns, _ref_current(ns, [(p1, L1)], D), events=False):
+        return False
+    pred.setLogLevelForNamespace(p2, L2)
+    cover()
+    if not _query_ok(pred, ns, _ref_current(ns, [(p1, L1), (p2, L2)], D)):
+        return False
+    pred.clearLogLevels()
+    if not _query_ok(pred, ns, D):
+        return False
+    pred.setLogLevelForNamespace(p2, L1)
+    return _query_ok(pred, ns, _ref_current(ns, [(p2, L1)], D), events=False)
+
+
 # ---- (c) limited history ----------------------------------------------------------------------------
 
 def history_replay(size: int, n: int, unbounded: bool) -> bool:
@@ -330,5 +389,6 @@ HARNESSES = [
     H(flt_missing, timeout={"quick": 60, "thorough": 300}),
     H(flt_levels, shards=lambda tier: [("cfg == %d" % k,) for k in range(len(_CFG))],
       timeout={"quick": 90, "thorough": 300}),
+    H(flt_order, shards=[("ins == %d" % k,) for k in range(5)], timeout={"quick": 90, "thorough": 300}),
     H(history_replay, timeout={"quick": 60, "thorough": 300}),
 ]
